@@ -13,13 +13,13 @@ var (
 	VerifCtlRemoveSCT func(tbs []byte) ([]byte, error)
 )
 
-//verif:stub github.com/google/certificate-transparency-go/x509.ParseCertificate dir=. files=serialization.go as=x509.VerifStubParseCertificate
+//verif:stub github.com/google/certificate-transparency-go/x509.ParseCertificate dir=. files=* as=x509.VerifStubParseCertificate
 func VerifStubParseCertificate(der []byte) (*Certificate, error) { return VerifCtlParse(der) }
 
-//verif:stub github.com/google/certificate-transparency-go/x509.BuildPrecertTBS dir=. files=serialization.go as=x509.VerifStubBuildPrecertTBS
+//verif:stub github.com/google/certificate-transparency-go/x509.BuildPrecertTBS dir=. files=* as=x509.VerifStubBuildPrecertTBS
 func VerifStubBuildPrecertTBS(tbs []byte, preIssuer *Certificate) ([]byte, error) {
 	return VerifCtlBuildTBS(tbs, preIssuer)
 }
 
-//verif:stub github.com/google/certificate-transparency-go/x509.RemoveSCTList dir=. files=serialization.go as=x509.VerifStubRemoveSCTList
+//verif:stub github.com/google/certificate-transparency-go/x509.RemoveSCTList dir=. files=* as=x509.VerifStubRemoveSCTList
 func VerifStubRemoveSCTList(tbs []byte) ([]byte, error) { return VerifCtlRemoveSCT(tbs) }
